@@ -114,6 +114,15 @@ type RecManager struct {
 	BeforeDeliver func() // harness callback at the start of every Deliver (may be nil)
 }
 
+// dumpAddr: a stored message without a sender (an extension answered with a message it built itself) is dumped
+// with the empty address.
+func dumpAddr(a *mail.Address) string {
+	if a == nil {
+		return ""
+	}
+	return a.Address
+}
+
 // AddrStr is the projection of a mail.Address that is compared.
 func AddrStr(a *mail.Address) string {
 	if a == nil {
@@ -534,7 +543,7 @@ func DumpStore(s storage.Store) string {
 			for i, a := range m.To() {
 				to[i] = vh.HS(AddrStr(a))
 			}
-			b.msgs = append(b.msgs, strings.Join([]string{vh.HS(AddrStr(m.From())), "[" + strings.Join(to, ";") + "]",
+			b.msgs = append(b.msgs, strings.Join([]string{vh.HS(dumpAddr(m.From())), "[" + strings.Join(to, ";") + "]",
 				vh.HS(m.Subject()), strconv.FormatInt(m.Size(), 10), vh.H(MaskTimestamp(src, name))}, ":"))
 		}
 		boxes = append(boxes, b)
